@@ -6,7 +6,7 @@ CONSTANTS
   MaxNodes = 3
   GInns = {1, 2}
   GSrc = {1, 2}
-  GDst = {2, 3}
+  GDst = {1, 2, 3}
   GRecs = {FALSE, TRUE}
   MaxGenes = 3
   WGenes = 0
